@@ -40,7 +40,6 @@ AXES_CALLEE = dict(arg_names=['attrs'], returns='seq:int', pure=True,
                    requires=['forall(lambda i: attrs[i] in self.attrs, 0, len(attrs))'],
                    ensures=dict(D.AXES['ensures']))
 CONTAINS_CALLEE = dict(arg_names=['other'], returns='bool', pure=True, requires=[], ensures=dict(D.CONTAINS['ensures']))
-MERGE_CALLEE = dict(arg_names=['other'], returns='obj:Domain', pure=True, requires=[], ensures=dict(D.MERGE['ensures']))
 
 AGREE = 'forall(lambda i: domain.config[self.domain.attrs[i]] == self.domain.config[self.domain.attrs[i]], 0, len(self.domain.attrs))'
 
@@ -51,12 +50,71 @@ TRANSPOSE = dict(BASE, params=dict(self='obj:Factor', attrs='seq:obj'),
                  requires=finv('self') + [D.distinct('attrs')],
                  ensures=dict({'axes-in-requested-order': 'seq_equal(result.domain.attrs, attrs)'}, **finv_named('result', 'result-invariant')))
 
+def _bind_domain(argname):
+    def bind(eng, st, bound, res, node):
+        st.fields[(str(res.t), 'domain')] = bound[argname]
+    return bind
+
+
+EXPAND_CALLEE = dict(arg_names=['domain'], returns='obj:Factor', bind=_bind_domain('domain'),
+                     requires=['all_in(self.domain.attrs, domain.attrs)', AGREE] + dom_ok('domain'),
+                     ensures=finv_named('result', 'inv'))
+
+# two factors may only be combined if they agree on the sizes of the attributes they share
+AGREE_SHARED = ('forall(lambda i: implies(other.domain.attrs[i] in self.domain.attrs, '
+                'self.domain.config[other.domain.attrs[i]] == other.domain.config[other.domain.attrs[i]]), 0, len(other.domain.attrs))')
+_MERGE_ENS = {k: v for k, v in D.MERGE['ensures'].items() if k != 'size-is-product'}
+_MERGE_ENS.update(D.MERGE_RESULT_INVARIANT_ASSUMED)
+MERGE_CALLEE = dict(arg_names=['other'], returns='obj:Domain', pure=True, requires=[], ensures=_MERGE_ENS)
+
+_BIN_ENS = dict({'on-the-merged-domain': 'same(result.domain, self.domain.merge(other.domain)) or same(result.domain, self.domain)'},
+                **finv_named('result', 'result-invariant'))
+BINARY = dict(BASE, params=dict(self='obj:Factor', other='obj:Factor'),
+              requires=finv('self') + finv('other') + [AGREE_SHARED], ensures=_BIN_ENS)
+def _bind_merged(eng, st, bound, res, node):
+    import ast as _ast
+    env = dict(bound)
+    s2 = st.fork()
+    s2.env.update(env)
+    eng._spec_mode = getattr(eng, '_spec_mode', 0) + 1
+    try:
+        dom = eng.ev(s2, _ast.parse('self.domain.merge(other.domain)', mode='eval').body)
+    finally:
+        eng._spec_mode -= 1
+    for f_ in s2.path[len(st.path):]:
+        st.assume(f_)
+    st.fields[(str(res.t), 'domain')] = dom
+
+
+BINARY_CALLEE = dict(arg_names=['other'], returns='obj:Factor', requires=[AGREE_SHARED], bind=_bind_merged,
+                     ensures=finv_named('result', 'inv'))
+DIV = dict(BASE, params=dict(self='obj:Factor', other='obj:Factor'),
+           requires=finv('self') + finv('other') + ['all_in(other.domain.attrs, self.domain.attrs)',
+                                                    'forall(lambda i: self.domain.config[other.domain.attrs[i]] == other.domain.config[other.domain.attrs[i]], 0, len(other.domain.attrs))'],
+           ensures=dict({'on-the-dividend-domain': 'same(result.domain, self.domain)'}, **finv_named('result', 'result-invariant')))
+INPLACE = dict(BASE, params=dict(self='obj:Factor', other='obj:Factor'),
+               requires=finv('self') + finv('other') + ['all_in(other.domain.attrs, self.domain.attrs)',
+                                                        'forall(lambda i: self.domain.config[other.domain.attrs[i]] == other.domain.config[other.domain.attrs[i]], 0, len(other.domain.attrs))'],
+               ensures=dict({'same-object': 'same(result, self)'}, **finv_named('self', 'self-invariant-kept')))
+UNARY = dict(BASE, params=dict(self='obj:Factor', out='none'), requires=finv('self'),
+             ensures=dict({'same-domain': 'same(result.domain, self.domain)'}, **finv_named('result', 'result-invariant')))
+
 REG = {'.axes': AXES_CALLEE, '.contains': CONTAINS_CALLEE, '.project': D.PROJECT_CALLEE, '.marginalize': D.MARGINALIZE_CALLEE,
-       '.merge': MERGE_CALLEE, 'Domain': D.DOMAIN_CALLEE}
+       '.merge': MERGE_CALLEE, 'Domain': D.DOMAIN_CALLEE, '.expand': EXPAND_CALLEE, '.__add__': BINARY_CALLEE}
 
 FUNCTIONS = [
     ('Factor.expand', EXPAND, REG, ''),
     ('Factor.transpose', TRANSPOSE, REG, ''),
+    ('Factor.__add__', BINARY, REG, ''),
+    ('Factor.__mul__', BINARY, REG, ''),
+    ('Factor.logaddexp', BINARY, REG, ''),
+    ('Factor.__sub__', BINARY, REG, ''),
+    ('Factor.__truediv__', DIV, REG, 'divisor domain contained'),
+    ('Factor.__iadd__', INPLACE, REG, ''),
+    ('Factor.__imul__', INPLACE, REG, ''),
+    ('Factor.exp', UNARY, REG, 'out=None'),
+    ('Factor.log', UNARY, REG, 'out=None'),
+    ('Factor.copy', UNARY, REG, 'out=None'),
 ]
 
 
